@@ -432,7 +432,7 @@ def _check_non_generic_subclass(run: Run, m) -> None:
                 n_rec += 1
                 a1 = strip_sites(fa.term_of(c.args[1])) if len(c.args) >= 2 else next((strip_sites(fa.term_of(k.value)) for k in c.keywords if k.arg == bt.pos_params[1]), None)
                 run.check(a1 == acp, "C08.R10", bt, stmt_of(c), "the recursion keeps looking for at_class", f"the search continues in the inherited type with {show(a1)[:60] if a1 else 'no class'} instead of at_class: the bindings of the first parameterised base are returned, not those of the class that declares the method - JetGroups(Grouped[Jet]), Grouped(Base[Iterable[T]]), Base.first() -> T is typed Jet instead of Iterable[Jet]", "build_type_dict_from_type(inherited, at_class)", key="recursion drops at_class")
-    run.floor("C08.R10", n_rec, 2, "recursive steps of build_type_dict_from_type")
+    run.floor("C08.R10", n_rec, 1, "recursive steps of build_type_dict_from_type")
 
 
 def strip_visits_attr(t):
